@@ -31,6 +31,7 @@ type RunResult struct {
 	Pairs      map[string]int `json:"-"`
 	Log        []string       `json:"-"`
 	Brief      string         `json:"brief,omitempty"`
+	RaceSites  []string       `json:"race_sites,omitempty"` // free-running under the race detector: engine statements named by a report
 	Dry        *DryInfo       `json:"-"`
 }
 
